@@ -2121,24 +2121,40 @@ func rulePAGESCOUNT(p *Program, rep *Report) {
 	total := p.FieldVar("pq", "buffer", "countPages")
 	rep.Analysed(funcName(fn))
 	n := 0
-	for _, b := range fn.Blocks {
-		r, ok := b.Instrs[len(b.Instrs)-1].(*ssa.Return)
-		if !ok || len(r.Results) != 3 {
-			continue
-		}
-		end, cnt := retVal(r, 1), retVal(r, 2)
-		if isNilConst(end) {
-			continue
-		}
-		n++
-		key := fmt.Sprintf("buffer.Pages|return@%s", strings.TrimPrefix(p.InstrPos(r), "pq/"))
-		key = "buffer.Pages|partial-range-count"
-		if dataSliceHas(p, cnt, nil, total, nil) {
-			rep.Bad("PAGES-COUNT", key, p.InstrPos(r), "buffer.Pages returns a page range that ends before the end of the buffer's page list together with a count derived from buffer.countPages (all buffered pages): when the event being written has already spilled onto pages behind the range, Writer.doFlush expects more page allocations than the range needs and its allocation-counter invariant panics — a flush in the middle of a streamed event kills the producer")
-		} else {
-			rep.OK("PAGES-COUNT", key, p.InstrPos(r), "count computed from the returned range")
+	// (end, count) pairs of every return; a return that forwards the result tuple of a helper is judged
+	// at the helper's returns
+	var visit func(f *ssa.Function, depth int)
+	visit = func(f *ssa.Function, depth int) {
+		for _, b := range f.Blocks {
+			r, ok := b.Instrs[len(b.Instrs)-1].(*ssa.Return)
+			if !ok || len(r.Results) != 3 {
+				continue
+			}
+			end, cnt := retVal(r, 1), retVal(r, 2)
+			if e1, isEx := end.(*ssa.Extract); isEx && depth < 3 {
+				if e2, isEx2 := cnt.(*ssa.Extract); isEx2 && e1.Tuple == e2.Tuple && e1.Index == 1 && e2.Index == 2 {
+					if c, isCall := e1.Tuple.(*ssa.Call); isCall {
+						if g := c.Common().StaticCallee(); g != nil && fnPkgPath(g) == modPath+"/pq" && len(g.Blocks) > 0 && g.Signature.Results().Len() == 3 {
+							rep.Analysed(funcName(g))
+							visit(g, depth+1)
+							continue
+						}
+					}
+				}
+			}
+			if isNilConst(end) {
+				continue
+			}
+			n++
+			key := "buffer.Pages|partial-range-count"
+			if dataSliceHas(p, cnt, nil, total, nil) {
+				rep.Bad("PAGES-COUNT", key, p.InstrPos(r), "buffer.Pages returns a page range that ends before the end of the buffer's page list together with a count derived from buffer.countPages (all buffered pages): when the event being written has already spilled onto pages behind the range, Writer.doFlush expects more page allocations than the range needs and its allocation-counter invariant panics — a flush in the middle of a streamed event kills the producer")
+			} else {
+				rep.OK("PAGES-COUNT", key, p.InstrPos(r), "count computed from the returned range")
+			}
 		}
 	}
+	visit(fn, 0)
 	if n == 0 {
 		rep.Unknown("PAGES-COUNT", "buffer.Pages", p.Pos(fn.Pos()), "buffer.Pages has no return with a partial range (anchor lost)")
 	}
